@@ -278,11 +278,86 @@ open Moto.Argparse in
 theorem archivers_require_an_action : ∀ t ∈ Gen.Cli.tools,
     (t.groupRequired = true ↔ t.name ∈ [Tape.str "moto_tar", Tape.str "moto_sdar", Tape.str "moto_fdar"]) := by decide
 
-section examples
-open Moto.Argparse
-
 def toolNamed (n : String) : Gen.Cli.Tool :=
   (Gen.Cli.tools.find? (fun t => t.name == Tape.str n)).getD { name := [], allowAbbrev := false, groupRequired := false, parseMode := .other, actions := [] }
+
+def noAction : Gen.Cli.Action := { opts := [], nargs := 0, dest := [], const := [], isInt := false, inGroup := false, default := [] }
+
+open Moto.Argparse in
+/-- what `disk_form_accepted` needs of a parser description, as one decidable condition: its positionals are the archive (one string,
+    the only required positional) then the sources (`*`), `run()` uses `parse_known_args` and the `--eos` filter, the actions
+    store a non-empty constant into `action` -/
+def DiskShape (t : Gen.Cli.Tool) : Prop :=
+  let pa := (initSt t).pos.getD 0 noAction
+  let ps := (initSt t).pos.getD 1 noAction
+  (initSt t).pos = [pa, ps] ∧ t.parseMode = .knownThenEosFilter ∧ ps.dest = sourcesDest ∧ pa.dest = Tape.str "archive" ∧
+    pa.nargs = 3 ∧ ps.nargs = 2 ∧ pa.isInt = false ∧ pa.inGroup = false ∧ ps.inGroup = false ∧ (pa.dest == helpDest) = false ∧
+    (ps.dest == helpDest) = false ∧ (∀ x ∈ t.actions, (x.nargs == 3 || x.nargs == 4) = true → x.dest = pa.dest) ∧ (ps.dest == pa.dest) = false ∧
+    (∀ a ∈ t.actions, a.inGroup = true → (ps.dest == a.dest) = false ∧ (pa.dest == a.dest) = false ∧ (a.dest == helpDest) = false ∧ a.nargs = 0 ∧
+      a.dest = Tape.str "action" ∧ a.const.isEmpty = false)
+
+instance (t : Gen.Cli.Tool) : Decidable (DiskShape t) := by unfold DiskShape; infer_instance
+
+theorem disk_archivers_shape : DiskShape (toolNamed "moto_sdar") ∧ DiskShape (toolNamed "moto_fdar") := by decide +kernel
+
+open Moto.Argparse in
+/-- **C19 / C10 (the documented command line of the disk archivers is accepted, `--eos` where it stands)**: for both disk archivers,
+    every option string `act` of an action (`-c`, `--create`, `-r`, `--add`, `-t`, …), every plain archive name and *every* list of
+    sources — plain strings not starting with '-' and `--eos` markers in any letter case, in any number and order — the command
+    line `act archive sources…` reaches `run()`: no usage error, `args.archive` is the archive, `args.action` the action,
+    and `args.sources` is the list exactly as given, markers included, in the order given (the repair F19 at the level of every
+    command line). -/
+theorem disk_documented_form_accepted (n : String) (hn : n = "moto_sdar" ∨ n = "moto_fdar") (a : Gen.Cli.Action) (act arc : Str) (srcs : List Str)
+    (hact : classify (toolNamed n) act = .opt a act none) (hain : a.inGroup = true) (hmem : a ∈ (toolNamed n).actions) (hactne : act ≠ dashdash)
+    (harc : Plain (toolNamed n) arc) (hsrcs : ∀ s ∈ srcs, DiskSrc (toolNamed n) s) :
+    ∃ ns, cliParse (toolNamed n) (act :: arc :: srcs) = .ok ns [] ∧ lookup ns (Tape.str "archive") = some (.str arc) ∧
+      lookup ns (Tape.str "action") = some (.str a.const) ∧ lookup ns sourcesDest = some (.list srcs) := by
+  have hshape : DiskShape (toolNamed n) := by
+    rcases hn with rfl | rfl
+    · exact disk_archivers_shape.1
+    · exact disk_archivers_shape.2
+  generalize toolNamed n = t at *
+  obtain ⟨hpos, hmode, hsd, had, ha, hs, hai, hga, hgs, hda, hds, hreq, hd1, hgrp⟩ := hshape
+  obtain ⟨hd2, hd3, hadest, han, hadst, hconst⟩ := hgrp a hmem hain
+  obtain ⟨ns, h1, h2, h3, h4⟩ := disk_form_accepted t _ _ a act arc srcs hmode hsd hpos ha hs hai hga hgs hda hds hreq
+    hd1 hd2 hd3 hactne hact hain han hadest harc hsrcs
+  refine ⟨ns, h1, by rw [← had]; exact h2, ?_, by rw [← hsd]; exact h4⟩
+  rw [← hadst, h3, if_neg (by simp [hconst])]
+
+open Moto.Argparse in
+/-- the same condition for the tape archiver, whose `run()` calls `parse_args()` -/
+def TapeShape (t : Gen.Cli.Tool) : Prop :=
+  let pa := (initSt t).pos.getD 0 noAction
+  let ps := (initSt t).pos.getD 1 noAction
+  (initSt t).pos = [pa, ps] ∧ t.parseMode = .strict ∧ ps.dest = sourcesDest ∧ pa.dest = Tape.str "archive" ∧
+    pa.nargs = 3 ∧ ps.nargs = 2 ∧ pa.isInt = false ∧ pa.inGroup = false ∧ ps.inGroup = false ∧ (pa.dest == helpDest) = false ∧
+    (ps.dest == helpDest) = false ∧ (∀ x ∈ t.actions, (x.nargs == 3 || x.nargs == 4) = true → x.dest = pa.dest) ∧ (ps.dest == pa.dest) = false ∧
+    (∀ a ∈ t.actions, a.inGroup = true → (ps.dest == a.dest) = false ∧ (pa.dest == a.dest) = false ∧ (a.dest == helpDest) = false ∧ a.nargs = 0 ∧
+      a.dest = Tape.str "action" ∧ a.const.isEmpty = false)
+
+instance (t : Gen.Cli.Tool) : Decidable (TapeShape t) := by unfold TapeShape; infer_instance
+
+theorem tape_archiver_shape : TapeShape (toolNamed "moto_tar") := by decide +kernel
+
+open Moto.Argparse in
+/-- **C19 (the documented command line of the tape archiver is accepted)**: every action option string, every plain archive name,
+    every list of plain sources: `act archive sources…` reaches `run()` with exactly these arguments, the sources in the order given -/
+theorem tape_documented_form_accepted (a : Gen.Cli.Action) (act arc : Str) (srcs : List Str)
+    (hact : classify (toolNamed "moto_tar") act = .opt a act none) (hain : a.inGroup = true) (hmem : a ∈ (toolNamed "moto_tar").actions)
+    (hactne : act ≠ dashdash) (harc : Plain (toolNamed "moto_tar") arc) (hsrcs : ∀ s ∈ srcs, Plain (toolNamed "moto_tar") s) :
+    ∃ ns, cliParse (toolNamed "moto_tar") (act :: arc :: srcs) = .ok ns [] ∧ lookup ns (Tape.str "archive") = some (.str arc) ∧
+      lookup ns (Tape.str "action") = some (.str a.const) ∧ lookup ns sourcesDest = some (.list srcs) := by
+  have hshape := tape_archiver_shape
+  generalize toolNamed "moto_tar" = t at *
+  obtain ⟨hpos, hmode, hsd, had, ha, hs, hai, hga, hgs, hda, hds, hreq, hd1, hgrp⟩ := hshape
+  obtain ⟨hd2, hd3, hadest, han, hadst, hconst⟩ := hgrp a hmem hain
+  obtain ⟨ns, h1, h2, h3, h4⟩ := strict_form_accepted t _ _ a act arc srcs hmode hpos ha hs hai hga hgs hda hds hreq
+    hd1 hd2 hd3 hactne hact hain han hadest harc hsrcs
+  refine ⟨ns, h1, by rw [← had]; exact h2, ?_, by rw [← hsd]; exact h4⟩
+  rw [← hadst, h3, if_neg (by simp [hconst])]
+
+section examples
+open Moto.Argparse
 
 /-- the hypotheses are met by ordinary strings: `--bogus` and `-z` are unknown to every tool; `--eos` is unknown to the parser of
     the disk archivers (and accepted by their `run()`) -/
@@ -297,6 +372,11 @@ example : cliParse (toolNamed "moto_tar") [Tape.str "a.k7", Tape.str "b.dat"] = 
 example : cliParse (toolNamed "moto_nl") [Tape.str "-i5", Tape.str "--bogus", Tape.str "p.lst"] = .error := by decide +kernel
 example : cliParse (toolNamed "moto_nl") [Tape.str "-hz"] = .error := by decide +kernel
 example : cliParse (toolNamed "moto_nl") [Tape.str "--bogus", Tape.str "-h"] = .help := by decide +kernel
+/-- the hypotheses of `disk_documented_form_accepted` are met by the strings of the manuals -/
+example : ∃ a, classify (toolNamed "moto_fdar") (Tape.str "-c") = .opt a (Tape.str "-c") none ∧ a.inGroup = true ∧ a ∈ (toolNamed "moto_fdar").actions :=
+  ⟨(toolNamed "moto_fdar").actions.getD 3 noAction, by decide +kernel, by decide +kernel, by decide +kernel⟩
+example : Plain (toolNamed "moto_fdar") (Tape.str "d.fd") ∧ DiskSrc (toolNamed "moto_fdar") (Tape.str "a.dat") ∧ DiskSrc (toolNamed "moto_fdar") (Tape.str "--Eos") := by
+  refine ⟨⟨by decide +kernel, by decide⟩, Or.inl ⟨by decide +kernel, by decide, by decide⟩, Or.inr ⟨by decide +kernel, by decide⟩⟩
 end examples
 
 end Moto.C19
